@@ -268,7 +268,7 @@ func ruleNoImpossibleConjunction(c *Ctx) {
 			}
 			for _, a := range nan {
 				for _, bb := range inf {
-					if a == bb || sharesSource(a, bb) {
+					if a == bb || sharesSource(a, bb) || sameLoadSource(a, bb) {
 						c.R.Bad(rule, fmt.Sprintf("%s:block#%d", core.FuncName(fn), b.Index), c.pos(b.Instrs[0]), "this code runs only where one value is both NaN and infinite, which no float is (a De Morgan slip when the test was turned into an early return): the refusal of a non-finite bound it contains never happens, Resolve accepts the schema, and Validate panics converting the bound to an exact rational")
 					}
 				}
